@@ -64,6 +64,25 @@ example : spliceRowGroupBlooms 100 [(exMeta 4, 48), (exMeta 94, 0)] =
     some [({ exMeta 100 with encStats := [⟨0, 8, 2⟩, ⟨2, 0, 1⟩] }, some (280, 48)),
           ({ exMeta 190 with encStats := [⟨0, 8, 2⟩, ⟨2, 0, 1⟩] }, none)] := by decide
 
+/-- The row group entry of a fully spliced row group: `file_offset` is where its first chunk
+    starts, `total_compressed_size` is exactly the number of bytes up to the offset after the last
+    chunk (where the bloom filter sections begin), `total_byte_size` is the sum of the pages'
+    header + uncompressed sizes. -/
+theorem splice_rowGroup_totals (le : Bytes → Bytes → Bool) (lim start : Nat)
+    (cs : List (FullMeta × Nat)) (pss : List (List PageV)) (srcStarts : List Nat)
+    (hl : cs.length = pss.length) (hl2 : cs.length = srcStarts.length)
+    (hd : ∀ i (h1 : i < cs.length) (h2 : i < pss.length) (h3 : i < srcStarts.length),
+        Describes le lim cs[i].1 srcStarts[i] pss[i]) :
+    ∃ ms endOff, spliceRowGroupV start cs = some (ms, endOff) ∧
+      (rowGroupTotals start ms).fileOffset = start ∧
+      start + (rowGroupTotals start ms).totalCompressedSize = endOff ∧
+      (rowGroupTotals start ms).totalByteSize =
+        (pss.map fun ps => ((ops ps).map fun p => p.hdrLen + p.uncompLen).sum).sum :=
+  SpliceMeta.splice_rowGroup_totals le lim start cs pss srcStarts hl hl2 hd
+
+example : (spliceRowGroupV 100 [(exMeta 4, 48), (exMeta 94, 0)]).map (fun r => (rowGroupTotals 100 r.1, r.2)) =
+    some (⟨100, 214, 180, 7⟩, 280) := by decide
+
 /-- `sortPageEncodingStats` on a copied chunk: the result is ordered by (page type, encoding), is a
     permutation of the source's entries, and leaves already ordered statistics (every chunk written
     by this library) untouched — so a spliced chunk's encoding statistics still count its pages. -/
